@@ -46,7 +46,12 @@ namespace chaiscript::dispatch::detail {
       std::array<Boxed_Value, sizeof...(P)> params{box<P>(std::forward<P>(param))...};
 
       if (m_conversions) {
-        Type_Conversions_State state(*m_conversions, m_conversions->conversion_saves());
+        // arguments converted for this call must stay alive until it returns: outside of a script
+        // evaluation the thread's conversion saves are disabled, so keep them in a local list
+        auto &thread_saves = m_conversions->conversion_saves();
+        Type_Conversions::Conversion_Saves local_saves;
+        local_saves.enabled = true;
+        Type_Conversions_State state(*m_conversions, thread_saves.enabled ? thread_saves : local_saves);
         return call(chaiscript::Function_Params{params}, state);
       } else {
         Type_Conversions conv;
